@@ -17,6 +17,7 @@ import (
 	"github.com/arr-ai/arrai/rel"
 	"github.com/arr-ai/arrai/syntax"
 
+	"verif/model"
 	"verif/obs"
 )
 
@@ -39,8 +40,104 @@ var hostile = []string{
 }
 
 func genC10(t *rapid.T) (crashCase, bool, []string) {
-	mode := pick(t, "mode", "illtyped", "illtyped", "illtyped", "stdlib", "stdlib", "bytes", "bytes", "values")
+	mode := pick(t, "mode", "illtyped", "illtyped", "illtyped", "stdlib", "stdlib", "bytes", "bytes", "values", "seqfn", "seqfn", "edit-chain", "edit-chain")
 	switch mode {
+	case "seqfn":
+		// sequence functions on related arguments: each argument is a one-step
+		// edit of the previous one (tail, init, one more at either end, same, empty)
+		var fns []string
+		for _, f := range safeStdFunctions() {
+			if strings.HasPrefix(f, "//seq.") || strings.HasPrefix(f, "//str.") || strings.HasPrefix(f, "//re.") {
+				fns = append(fns, f)
+			}
+		}
+		fn := fns[rapid.IntRange(0, len(fns)-1).Draw(t, "fn")]
+		kind := pick(t, "seqkind", "arr", "arr", "str", "str", "bytes")
+		n := rapid.IntRange(0, 4).Draw(t, "len")
+		items := make([]*model.V, n)
+		newItem := func() *model.V {
+			switch kind {
+			case "str":
+				return model.Num(float64(pick(t, "char", charAlphabet...)))
+			case "bytes":
+				return model.Num(float64(pick(t, "byte", byteAlphabet...)))
+			}
+			return model.Num(float64(rapid.IntRange(1, 3).Draw(t, "item")))
+		}
+		for i := range items {
+			items[i] = newItem()
+		}
+		r := newRenderer(t)
+		render := func(items []*model.V, off int) string {
+			if len(items) == 0 {
+				return map[string]string{"arr": "[]", "str": `""`, "bytes": "<<>>"}[kind]
+			}
+			return r.lit(model.Seq(seqAttrOfKind[kind], off, items...))
+		}
+		src := fn
+		edits := []string{}
+		for i, nargs := 0, rapid.IntRange(1, 3).Draw(t, "nargs"); i < nargs; i++ {
+			if chance(t, "scalar", 15) {
+				src += "(" + fmt.Sprint(rapid.IntRange(-1, 4).Draw(t, "n")) + ")"
+				continue
+			}
+			off := 0
+			if i > 0 || chance(t, "edit-first", 30) {
+				e := pick(t, "edit", "tail", "tail", "init", "init", "append", "prepend", "same", "empty", "offset", "nest", "hole")
+				edits = append(edits, e)
+				switch e {
+				case "tail":
+					if len(items) > 0 {
+						items = items[1:]
+					}
+				case "init":
+					if len(items) > 0 {
+						items = items[:len(items)-1]
+					}
+				case "append":
+					items = append(append([]*model.V{}, items...), newItem())
+				case "prepend":
+					items = append([]*model.V{newItem()}, items...)
+				case "empty":
+					items = nil
+				case "offset":
+					off = rapid.IntRange(-1, 2).Draw(t, "off")
+				case "hole":
+					if len(items) >= 3 {
+						items = append([]*model.V{}, items...)
+						items[rapid.IntRange(1, len(items)-2).Draw(t, "at")] = nil
+					}
+				case "nest":
+					src += "([" + render(items, 0) + "])"
+					continue
+				}
+			}
+			src += "(" + render(items, off) + ")"
+		}
+		return crashCase{Src: src, Mode: mode}, true, []string{"mode:seqfn", "fn:" + strings.SplitN(strings.TrimPrefix(fn, "//"), ".", 2)[0], "edits:" + strings.Join(edits, ",")}
+	case "edit-chain":
+		// a collection, members of it removed / put back, and then something that walks the result
+		g := gcfg{quotedNames: true}
+		r := newRenderer(t)
+		a := g.genSetKind(t, pick(t, "coll", "arr", "arr", "arr", "str", "str", "bytes", "dict", "rel", "nums", "tuples", "mixed", "seqpairs"), 2)
+		bexpr := "a"
+		classes := []string{"mode:edit-chain"}
+		for i, n := 0, rapid.IntRange(1, 2).Draw(t, "nedits"); i < n; i++ {
+			var e *model.V
+			if len(a.Elems) > 0 && !chance(t, "stranger", 15) {
+				e = a.Elems[pick(t, "which", 0, len(a.Elems)-1, len(a.Elems)-1, rapid.IntRange(0, len(a.Elems)-1).Draw(t, "idx"))]
+			} else {
+				e = g.genVal(t, 1)
+			}
+			ed := pick(t, "edit", " without %s", " without %s", " with %s", " &~ {%s}", " | {%s}", " where . != %s")
+			bexpr = "(" + bexpr + fmt.Sprintf(ed, r.lit(e)) + ")"
+			classes = append(classes, "edit:"+strings.TrimSpace(strings.SplitN(ed, "%", 2)[0]))
+		}
+		src := "let a = " + r.lit(a) + "; let b = " + bexpr
+		cons := pick(t, "consumer", "b => .", "b where true", "b count", "b orderby .", "//seq.concat([b, b])", "b = a", "//str.repr(b)", "b ++ b", `b >> \x x`, "b(0)", "{b}", "b | a", "b & a", "b <&> a", `b => \x [x]`, "//seq.join(b, [b])", "b rank (r: .)", "[b, a] orderby .", "b < a", "(b => .) count")
+		classes = append(classes, "consumer:"+cons)
+		return crashCase{Src: src + "; " + cons, Mode: mode}, true, classes
+
 	case "illtyped":
 		g := &pgen{t: t, illTyped: pick(t, "rate", 15, 35, 60)}
 		ast := g.gen(ty(rapid.IntRange(0, 5).Draw(t, "ty")), 3, nil)
